@@ -17,12 +17,33 @@ Deciding monitor M (boundary, public API only), three parts:
   M.history    the same normal-form check after a short history of editing
                calls (new_block with random argument subsets, add_change,
                attribute assignments) on an empty or a parsed changelog.
+  M.history-mid  the same check on the text formatted in the MIDDLE of a
+               history (op ``fmt``), after which the history goes on.
+  M.model      histories also run on a plain-data model (one dict of the nine
+               public observables per block).  After every call all blocks are
+               read back through iteration and compared: an assigned attribute
+               reads back the assigned value on the addressed block (cl[i],
+               cl[i-len], i-th element of iteration, list(cl)[i]) and nothing
+               else changed; add_change/ChangeBlock.add_change added exactly one
+               entry to that block (position free); new_block stores what was
+               passed (defaults free) and shifts the rest; formatting changes no
+               observable.  The re-parsed final output must equal this model as
+               well as the live blocks ("the output reflects the current state
+               of every block").
+  M.blockwise  block n formats to the same text before and after the re-parse
+               (reported inside output-not-a-fixpoint when the whole text
+               differs, as block-output-not-a-fixpoint when only a block does).
+  N.twin       NON-DECIDING note: the history without its mid-history formats,
+               run on a second object, ends in the same text (layout purity of
+               str(); the statement is silent on it).
 
 Reach evidence: a sys.monitoring LINE probe (vp.probes.LocalsProbe) on
 ``Changelog.parse_changelog`` reads the generator-local ``state`` and ``line``
 once per input line; the set of (parser state, line class) pairs visited is
 reported, and fewer than 40 distinct pairs makes the run inconclusive.
 """
+import collections
+import copy
 import inspect
 import os
 import warnings
@@ -44,7 +65,22 @@ RULE = ('Texts: 1-3 generated well-formed blocks (urgency comments, extra key=va
         'editing calls on an empty or parsed (well-formed, fixture or mutated) changelog with well-formed argument '
         'values, plus the enumerated matrix (irregular heading | irregular trailer | text ending inside the block) x '
         '(each attribute assignment, add_change, new_block); non-trivial when the result is formattable and the '
-        'history has >= 2 calls.')
+        'history has >= 2 calls.  '
+        'Multi-block class: texts of 2-4 regular, pairwise different blocks (generated, or consecutive fixture blocks) with one '
+        '(20%: two) irregular-but-accepted construct in a NON-last block - own trailer respelled with ONE space before the '
+        'date, junk trailer / heading spellings, respelled own heading (repeated key, no pairs, upper-case key, odd spacing, '
+        'tab, invalid pair, trailing comma, bad urgency, urgency not first), junk between blocks, junk inside the changes, '
+        'layout (missing / extra blank lines), old-format or mode lines; every heading / trailer / between-blocks junk spelling '
+        'is also enumerated in block 0 of 2, 0 of 3 and 1 of 3 fixed different blocks.  These run through the same text oracle '
+        '(both allow_empty_author values) with the block-by-block comparison.  '
+        'Multi-block histories: start = 2-4 well-formed blocks, 2-4 fixture blocks, a multi-block text of the class above, a '
+        'mutated 2-3 block text, or 2-4 new_block calls; 3-9 further calls, mostly attribute assignments (author, date, '
+        'urgency, distributions, package, version, urgency_comment, other_pairs) and ChangeBlock.add_change on block i (i '
+        'biased to >= 1) reached through cl[i], cl[i-len(cl)], the i-th element of iteration or list(cl)[i], assignment to '
+        'every block while iterating, plus Changelog-level calls; at least one str(cl) (25% of the formats: str(cl[i])) '
+        'happens BEFORE a later edit, the text formatted there is checked as a normal form too, and the history ends with the '
+        'usual final check; an enumerated matrix (irregular construct in block k) x (target block) x (each assignment / '
+        'add_change) x (edit | format,edit | edit,format,edit | block-format,edit,format,edit) x handle is run as well.')
 ASSUMPTIONS = [
     'input texts are str (the constructor decodes bytes itself; undecodable bytes are outside "input text")',
     '"can be formatted" = str(changelog) does not raise ChangelogCreateError; such cases are skipped and counted',
@@ -54,6 +90,22 @@ ASSUMPTIONS = [
     'warnings are observed with warnings.catch_warnings(record=True) + simplefilter("always"); any recorded warning counts',
     'the re-parse of the output uses the same allow_empty_author value as the first parse',
     'line classes in the reach evidence come from the harness classifier (vp.models.clgen15.line_class), not from the library',
+    'history model (M.model): "the blocks of a programmatically edited changelog" are taken to be what the editing calls '
+    'wrote - a well-formed value assigned to a public attribute of a block reads back equal through the same public attribute, '
+    'an edit addressed to block i leaves every other block and every other attribute as it was, formatting (str) is not an '
+    'editing call and changes no public attribute; NOT demanded: where add_change puts the new entry, which defaults '
+    'new_block uses for arguments that were not passed, anything about private layout state',
+    'blocks are addressed only through int indexing (also negative), iteration and list(); lookup by version string / Version '
+    'object is not used (versions may repeat or be invalid in mutated texts)',
+    'mid-history formatting uses str(changelog) and str(block) only; a ChangelogCreateError there is counted and the '
+    'history continues (the changelog may become formattable later)',
+    'a different final TEXT with and without the mid-history formats, or two consecutive str() calls giving different text, '
+    'while each text is a normal form of the current blocks, is outside the statement: recorded as a non-deciding note '
+    '(counters note:*, evidence key notes_non_deciding), never a verdict',
+    'the block-by-block comparison uses str(block) of the i-th block before and after the re-parse; blocks are paired by '
+    'position (the block count is compared first)',
+    'for multi-block texts nothing is demanded of the FIRST parse of an irregular text (which block a junk line lands in, '
+    'whether blocks merge); only totality, strict/lenient agreement and the normal form of whatever was parsed',
 ]
 ANCHORS = ['debian.changelog:Changelog.parse_changelog',
            'debian.changelog:Changelog._parse_error',
@@ -68,6 +120,8 @@ MUST_REACH = ['debian.changelog:Changelog.parse_changelog', 'debian.changelog:Ch
 
 TEXTS = {'quick': 20000, 'thorough': 1000000}
 HISTS = {'quick': 4000, 'thorough': 300000}
+MTEXTS = {'quick': 4000, 'thorough': 200000}     # multi-block texts, irregular construct in a non-last block
+MHISTS = {'quick': 3000, 'thorough': 150000}     # histories on >= 2 blocks: older-block edits, mid-history formats
 MIN_PAIRS = 100      # design floor is 40; the enumeration part alone yields ~200 on the current tree
 
 _Q_COUNTERS = {
@@ -80,8 +134,22 @@ _Q_COUNTERS = {
     'sole:unexpected-line-before-first-heading': 1700, 'sole:unexpected-line-between-blocks': 1900,
     'sole:unexpected-line-in-changes': 2500,
     'strict:accepted': 6500, 'strict:raised': 14000, 'normalform:eof-block': 1500, 'normalform:rich-heading': 11000,
-    'op:new_block': 2900, 'op:add_change': 3200, 'op:set': 2000, 'op:bset': 2400,
-    'hist:from-empty': 800, 'hist:from-parsed': 2700,
+    'op:new_block': 4400, 'op:add_change': 3800, 'op:set': 2600, 'op:bset': 6500,
+    'hist:from-empty': 1000, 'hist:from-parsed': 4800,
+    # multi-block class (irregular construct in a non-last block; older-block edits; mid-history formats):
+    # a run that never exercises it is inconclusive
+    'multi:texts': 4300, 'multi:normalform-on-2+-blocks': 3600, 'multi:warned-and-2+-blocks': 2600,
+    'multi:bad-trailer-accepted-in-non-last-block': 1000, 'multi:irregular-in-middle-block': 900,
+    'multi:family:own-trailer-one-space': 830, 'multi:family:trailer-junk': 590, 'multi:family:heading-junk': 670,
+    'multi:family:own-heading-variant': 550, 'multi:family:between': 680, 'multi:family:in-changes': 270,
+    'multi:family:layout': 250, 'multi:family:slurp': 250,
+    'op:badd': 2000, 'op:seteach': 310, 'op:fmt': 2700, 'op:fmt-block': 690, 'op:edit-after-mid-format': 5300,
+    'older:bset': 3100, 'older:badd': 1300, 'older:seteach': 300, 'older:edit-after-mid-format': 2700,
+    'older-attr:author': 330, 'older-attr:date': 650, 'older-attr:urgency': 340, 'older-attr:distributions': 340,
+    'older-attr:package': 330, 'older-attr:version': 320, 'older-attr:urgency_comment': 330, 'older-attr:other_pairs': 340,
+    'older-attr:changes': 1300,
+    'handle:index': 1300, 'handle:neg': 1000, 'handle:iter': 1000, 'handle:list': 1000,
+    'hist:final-format-after-mid-format-and-edit': 2000, 'hist:final-format-after-older-block-edit': 2000,
 }
 _T_COUNTERS = {
     'warn:bad-trailer': 28000, 'warn:bad-urgency-value': 18000, 'warn:empty-file': 25, 'warn:eof-inside-block': 94000,
@@ -97,9 +165,10 @@ _T_COUNTERS = {
     'hist:from-empty': 60000, 'hist:from-parsed': 90000,
 }
 FLOORS = {
-    'quick': {'nontrivial': 9500,
-              'monitors': {'M.total': 21000, 'M.strict': 21000, 'M.normalform': 20000, 'M.history': 3000,
-                           'P.state-line': 300000},
+    'quick': {'nontrivial': 13000,
+              'monitors': {'M.total': 25000, 'M.strict': 25000, 'M.normalform': 24500, 'M.history': 5200,
+                           'M.history-mid': 2300, 'M.model': 23000, 'M.blockwise': 63000,
+                           'P.state-line': 430000},
               'counters': _Q_COUNTERS},
     'thorough': {'nontrivial': 470000,
                  'monitors': {'M.total': 1000000, 'M.strict': 1000000, 'M.normalform': 970000, 'M.history': 125000,
@@ -133,6 +202,21 @@ ENUM_BASE = ['base-pkg (1.0-1) unstable; urgency=low (HIGH for users of diversio
 ENUM_ASSIGN = [('package', 'newpkg'), ('version', '9:9.9-9'), ('distributions', 'stable testing'), ('urgency', 'HIGH'),
                ('urgency_comment', ' (security)'), ('other_pairs', {'XS-Foo': 'bar baz'}),
                ('author', 'New Author <n@a>'), ('date', 'Tue, 2 Jan 2001 01:02:03 +0100')]
+
+# three pairwise different regular blocks (plain / rich / plain heading, three trailer spellings) for the enumerated
+# multi-block texts and histories
+ENUM_BLOCKS = [
+    ['alpha (2.0-1) unstable; urgency=medium', '', '  * alpha change', '',
+     ' -- Alpha One <one@a.b>  Wed, 3 Jan 2001 03:00:00 +0000', ''],
+    ['beta (1:1.5~rc1-2) stable testing; urgency=low (HIGH for users of diversions), binary-only=yes', '',
+     '  * beta change', '    continuation', '', ' -- Beta Two <two@b.c>  Tue, 2 Jan 2001 02:00:00 +0100', ''],
+    ['gamma (0.9) experimental; urgency=high', '', '  [ G ]', '  * gamma change', '',
+     ' -- Gamma Three <three@c.d>  1 Jan 2001 1:00:00 -0500', ''],
+]
+ENUM_POS = [(2, 0), (3, 0), (3, 1)]          # (number of blocks, index of the irregular block) - never the last
+HANDLES = ['index', 'neg', 'iter', 'list']   # cl[i], cl[i - len(cl)], i-th element of iteration, list(cl)[i]
+OLDER_ATTRS = ['author', 'date', 'urgency', 'distributions', 'package', 'version', 'urgency_comment', 'other_pairs']
+ATTRS = ('package', 'version', 'distributions', 'urgency', 'urgency_comment', 'other_pairs', 'changes', 'author', 'date')
 
 # mechanism: topline accepts a version containing ';' but the key=value list is cut at the FIRST ';' of the
 # line (inside the version), so urgency / comment / extra pairs written by _format are not read back
@@ -307,6 +391,50 @@ def cases(ctx):
                     yield {'kind': 'hist', 'start': '\n'.join(ls) + '\n', 'aea': aea, 'ops': ops, 'src': 'enum'}
                 idx += 1
 
+    # 1c. enumerated multi-block texts: every irregular heading / trailer spelling in a NON-last block of
+    #     2 or 3 pairwise different regular blocks (plain and rich headings, three trailer spellings)
+    for n, k in ENUM_POS:
+        reps = []
+        own = g.one_space_trailer(ENUM_BLOCKS[k][g.trailer_index(ENUM_BLOCKS[k])])
+        reps.append(('trailer', own, 'own-trailer-one-space'))
+        reps.append(('trailer', own + '  ', 'own-trailer-one-space'))
+        for cls in g.TRAILER_FAMILY:
+            reps += [('trailer', j, 'trailer-junk') for j in g.JUNK[cls]]
+        for cls in g.HEADING_FAMILY:
+            reps += [('heading', j, 'heading-junk') for j in g.JUNK[cls]]
+        for cls in g.BETWEEN_FAMILY + g.SLURP_FAMILY:
+            reps += [('between', j, 'between') for j in g.JUNK[cls][:2]]
+        for what, j, fam in reps:
+            if ctx.mine(idx):
+                yield {'kind': 'text', 'text': '\n'.join(_enum_multi(n, k, what, j)) + '\n', 'aea': [False, True],
+                       'src': 'multi-enum', 'irr': {'n': n, 'k': k, 'family': fam}}
+            idx += 1
+
+    # 1d. enumerated histories on those texts: (irregular construct in block k) x (target block k, a neighbour, the
+    #     oldest) x (every attribute assignment, author+date, add_change on that block) x (edit | format, edit |
+    #     edit, format, edit) with the block reached through cl[i], cl[i-len], iteration and list(cl)[i] in turn
+    hvals = ENUM_ASSIGN + [('changes+', '  * added to an older block')]
+    hn = 0
+    for n, k in ENUM_POS:
+        own = g.one_space_trailer(ENUM_BLOCKS[k][g.trailer_index(ENUM_BLOCKS[k])])
+        for what, j, aea in [('trailer', own, False), ('trailer', g.JUNK['trailer-one-space'][1], False),
+                             ('trailer', ' --', True), ('heading', 'pkg (1.0) unstable; urgency=low, urgency=high', False),
+                             ('heading', 'pkg (1.0) unstable;', False), ('heading', 'pkg (1.0) unstable; urgency=low!', False),
+                             ('none', None, False)]:
+            start = '\n'.join(_enum_multi(n, k, what, j)) + '\n'
+            for t in sorted(set([k, min(k + 1, n - 1), n - 1, 1])):
+                for a, v in hvals:
+                    for pattern in ('e', 'fe', 'efe', 'bfe'):
+                        if ctx.mine(idx):
+                            how = HANDLES[(hn // 4) % len(HANDLES)]
+                            e1 = ['badd', t, v, how] if a == 'changes+' else ['bset', t, a, v, how]
+                            e2 = ['bset', t, 'date', 'Thu, 4 Jan 2001 04:05:06 -0700', how]
+                            ops = {'e': [e1], 'fe': [['fmt'], e1], 'efe': [e1, ['fmt'], e2],
+                                   'bfe': [['fmt', 'block', t], e1, ['fmt'], e2]}[pattern]
+                            yield {'kind': 'hist', 'start': start, 'aea': aea, 'ops': ops, 'src': 'multi-enum'}
+                        idx += 1
+                        hn += 1
+
     # 2. random mutated texts
     r = ctx.rng('texts')
     for i in range(ctx.size(TEXTS['quick'], TEXTS['thorough'])):
@@ -322,13 +450,117 @@ def cases(ctx):
         text = '\n'.join(lines) + ('\n' if lines and r.random() < 0.93 else '')
         yield {'kind': 'text', 'text': text, 'aea': [False, True], 'src': src, 'muts': ops}
 
+    # 2b. random multi-block texts with an irregular-but-accepted construct in a non-last block
+    r = ctx.rng('mtexts')
+    for i in range(ctx.size(MTEXTS['quick'], MTEXTS['thorough'])):
+        lines, info = g.multi_irregular(r, _fixture_run(r, fixtures) if r.random() < 0.2 else None)
+        text = '\n'.join(lines) + ('\n' if r.random() < 0.95 else '')
+        yield {'kind': 'text', 'text': text, 'aea': [False, True], 'src': 'multi', 'irr': info}
+
     # 3. editing histories
     r = ctx.rng('hists')
     for i in range(ctx.size(HISTS['quick'], HISTS['thorough'])):
         yield gen_history(r, fixtures)
 
+    # 3b. histories on changelogs with >= 2 blocks: edits of older blocks through the public handles,
+    #     formatting in the middle of the history
+    r = ctx.rng('mhists')
+    for i in range(ctx.size(MHISTS['quick'], MHISTS['thorough'])):
+        yield gen_history_multi(r, fixtures)
 
-def _new_block_kwargs(r):
+
+def _fixture_run(r, fixtures, lo=2, hi=4):
+    """lo..hi consecutive blocks of one fixture (None when no fixture has that many)."""
+    cands = [blocks for _n, _l, blocks in fixtures if len(blocks) >= lo]
+    if not cands:
+        return None
+    blocks = r.choice(cands)
+    n = r.randint(lo, min(hi, len(blocks)))
+    j = r.randrange(len(blocks) - n + 1)
+    return [list(b) for b in blocks[j:j + n]]
+
+
+def _enum_multi(n, k, what, j):
+    """ENUM_BLOCKS[:n] with the heading / trailer of block k replaced by j, or j put after block k's trailer."""
+    out = []
+    for i in range(n):
+        b = list(ENUM_BLOCKS[i])
+        if i == k and what == 'heading':
+            b[0] = j
+        elif i == k and what == 'trailer':
+            b[g.trailer_index(b)] = j
+        elif i == k and what == 'between':
+            b.insert(g.trailer_index(b) + 1, j)
+        out += b
+    return out
+
+
+def _assign_value(r, attr):
+    if attr == 'urgency_comment':
+        return g.arg_urgency_comment(r)
+    if attr == 'other_pairs':
+        return g.arg_other_pairs(r)
+    return {'version': g.ver, 'package': g.pkg, 'distributions': g.dist, 'urgency': g.urgency,
+            'author': g.author, 'date': g.date}[attr](r)
+
+
+def gen_history_multi(r, fixtures):
+    """A history on a changelog that has (or first builds) >= 2 blocks; most edits address an older block through
+    one of the public handles, and at least one format happens before the last edit."""
+    start, aea, ops = None, False, []
+    k = r.random()
+    if k < 0.28:
+        start = '\n'.join(g.wellformed(r, nblocks=r.choice([2, 2, 3, 4]))) + '\n'
+    elif k < 0.38 and _fixture_run(r, fixtures) is not None:
+        start = '\n'.join(l for b in _fixture_run(r, fixtures) for l in b) + '\n'
+    elif k < 0.65:
+        lines, _info = g.multi_irregular(r)
+        start = '\n'.join(lines) + '\n'
+        aea = r.random() < 0.4
+    elif k < 0.80:
+        lines, _ops = g.mutate(r, g.wellformed(r, nblocks=r.choice([2, 3])), r.randint(1, 2))
+        start = '\n'.join(lines) + '\n'
+        aea = r.random() < 0.4
+    else:                                   # built by several new_block calls (all arguments given)
+        for _ in range(r.randint(2, 4)):
+            kw = _new_block_kwargs(r, subset=False)
+            ops.append(['new_block', kw])
+    body = []
+    for _ in range(r.randint(3, 9)):
+        kind = r.choice(['bset', 'bset', 'bset', 'bset', 'badd', 'badd', 'badd', 'fmt', 'fmt', 'fmt', 'set',
+                         'add_change', 'new_block', 'seteach'])
+        if kind == 'seteach' and r.random() < 0.5:
+            kind = 'bset'
+        i = r.choice([0, 1, 1, 1, 2, 2, 3])
+        how = r.choice(HANDLES)
+        if kind == 'bset':
+            attr = r.choice(OLDER_ATTRS)
+            body.append(['bset', i, attr, _assign_value(r, attr), how])
+        elif kind == 'badd':
+            body.append(['badd', i, r.choice([g.change(r).rstrip(), g.change(r).rstrip(), g.change(r).rstrip(), '', '  ']), how])
+        elif kind == 'fmt':
+            body.append(['fmt'] if r.random() < 0.75 else ['fmt', 'block', i])
+        elif kind == 'set':
+            attr = r.choice(['version', 'package', 'distributions', 'urgency', 'author', 'date'])
+            body.append(['set', attr, _assign_value(r, attr)])
+        elif kind == 'add_change':
+            body.append(['add_change', g.change(r).rstrip()])
+        elif kind == 'new_block':
+            body.append(['new_block', _new_block_kwargs(r, subset=False)])
+        else:
+            attr = r.choice(['urgency', 'distributions', 'author', 'date', 'urgency_comment', 'other_pairs', 'package'])
+            body.append(['seteach', attr, _assign_value(r, attr)])
+    # at least one whole-changelog format that is followed by an edit
+    edits = [n for n, o in enumerate(body) if o[0] != 'fmt']
+    if not any(o == ['fmt'] and any(e > n for e in edits) for n, o in enumerate(body)):
+        body.insert(r.randint(0, edits[-1]) if edits else 0, ['fmt'])
+        if not edits:
+            attr = r.choice(OLDER_ATTRS)
+            body.append(['bset', 1, attr, _assign_value(r, attr), r.choice(HANDLES)])
+    return {'kind': 'hist', 'start': start, 'aea': aea, 'ops': ops + body, 'src': 'multi'}
+
+
+def _new_block_kwargs(r, subset=True):
     kw = {'package': g.pkg(r), 'version': g.ver(r), 'distributions': g.dist(r), 'urgency': g.urgency(r),
           'author': g.author(r), 'date': g.date(r)}
     if r.random() < 0.2:
@@ -339,7 +571,7 @@ def _new_block_kwargs(r):
         kw['urgency_comment'] = g.arg_urgency_comment(r)
     if r.random() < 0.3:
         kw['other_pairs'] = g.arg_other_pairs(r)
-    k = r.random()
+    k = r.random() if subset else 1.0
     if k < 0.15:                    # random subset of the arguments
         for name in r.sample(sorted(kw), r.randint(1, 3)):
             kw.pop(name)
@@ -414,8 +646,9 @@ def _parse(text, aea, strict=False):
     return c, [str(x.message) for x in w]
 
 
-def normal_form(ctx, c, aea, small, mon, eof_hint=False):
-    """c: a live Changelog.  Returns True when the check was evaluated."""
+def normal_form(ctx, c, aea, small, mon, eof_hint=False, expect=None):
+    """c: a live Changelog.  Returns True when the check was evaluated.
+    expect: optional history model (list of snap() dicts) the re-parsed blocks must equal as well."""
     from debian import changelog as cl
     try:
         s = str(c)
@@ -464,17 +697,44 @@ def normal_form(ctx, c, aea, small, mon, eof_hint=False):
             ctx.violation(key, 'block %d %s: formatted from %r, parsed back %r; output %r'
                           % (n, attr, sx[attr], sy[attr], s), small)
             return True
+    if expect is not None:
+        for n, y in enumerate(b2):
+            sy = snap(y)
+            if sy != expect[n]:
+                attr = [k for k in ATTRS if sy[k] != expect[n][k]][0]
+                ctx.violation('reparse-differs-from-history-model/%s' % attr,
+                              'block %d %s: the history leaves %r, parsed back %r; output %r'
+                              % (n, attr, expect[n][attr], sy[attr], s), small)
+                return True
     try:
         s2 = str(c2)
     except Exception as e:
         ctx.violation('reparsed-output-cannot-be-formatted', '%r; output %r' % (e, s), small)
         return True
+    # block by block: the text of block n before and after the re-parse
+    ctx.mon('M.blockwise', len(b1))
+    where = None
+    try:
+        for n, (x, y) in enumerate(zip(b1, b2)):
+            fx, fy = str(x), str(y)
+            if fx != fy:
+                where = (n, fx, fy)
+                break
+    except Exception as e:
+        ctx.violation('block-cannot-be-formatted-although-changelog-can/%s' % type(e).__name__,
+                      '%r; output %r' % (e, s), small)
+        return True
     if s2 != s:
-        ctx.violation('output-not-a-fixpoint', 'str(c)=%r but str(Changelog(str(c)))=%r' % (s, s2), small)
+        ctx.violation('output-not-a-fixpoint', 'str(c)=%r but str(Changelog(str(c)))=%r%s'
+                      % (s, s2, '' if where is None else '; first differing block %d of %d: %r -> %r'
+                         % (where[0], len(b1), where[1], where[2])), small)
+    elif where is not None:
+        ctx.violation('block-output-not-a-fixpoint', 'whole text is a fixpoint %r but block %d of %d formats as %r '
+                      'before and %r after the re-parse' % (s, where[0], len(b1), where[1], where[2]), small)
     return True
 
 
-def check_text(ctx, text, aea):
+def check_text(ctx, text, aea, info=None):
     from debian import changelog as cl
     small = {'kind': 'text', 'text': text, 'aea': [aea]}
     # --- totality of the lenient constructor (the one observed parse of this text)
@@ -514,39 +774,244 @@ def check_text(ctx, text, aea):
     elif sw:
         ctx.violation('strict-warns-instead-of-raising/%s' % warn_site(sw[0]), 'strict=True emitted warnings %r' % sw[:3], small)
     # --- normal form
-    if normal_form(ctx, c, aea, small, 'M.normalform'):
+    evaluated = normal_form(ctx, c, aea, small, 'M.normalform')
+    if evaluated:
         if len(c) and any(b.urgency_comment or b.other_pairs for b in c):
             ctx.count('normalform:rich-heading')
         if 'eof-inside-block' in sites:
             ctx.count('normalform:eof-block')
+    if info is not None:
+        info.update(nblocks=len(c), sites=sites, evaluated=evaluated)
     return warned
 
 
-def apply_ops(ctx, c, ops):
+class _Stop(Exception):
+    """Ends a history after its first recorded violation (no cascades)."""
+
+
+def snap(b):
+    """All public observables of one block as plain data (the history model is made of these)."""
+    d = sig7(b)
+    d.update(sig_extra(b))
+    return d
+
+
+def snap_all(c):
+    return [snap(b) for b in c]
+
+
+def _diff(live, expected):
+    """First (block index, attribute) at which two snapshot lists differ; block index None = different length."""
+    if len(live) != len(expected):
+        return (None, 'block-count')
+    for n, (x, y) in enumerate(zip(live, expected)):
+        if x != y:
+            return (n, [k for k in ATTRS if x[k] != y[k]][0])
+    return None
+
+
+def _canon(attr, val):
+    if attr == 'version':
+        return str(val['__version__'] if isinstance(val, dict) else val)
+    if attr == 'other_pairs':
+        return dict(val)
+    if attr == 'changes':
+        return list(val)
+    return val
+
+
+def _handle(c, idx, how):
+    """Block idx of the changelog, reached through one of the public ways."""
+    if how == 'iter':
+        for n, b in enumerate(c):
+            if n == idx:
+                return b
+        raise IndexError(idx)
+    if how == 'list':
+        return list(c)[idx]
+    if how == 'neg':
+        return c[idx - len(c)]
+    return c[idx]
+
+
+def _do_op(c, op):
+    """One editing call on the live object.  Returns (kind, block index, attribute, handle) or None (skipped)."""
     from debian import debian_support as ds
-    done = 0
-    for op in ops:
-        kind = op[0]
-        if kind == 'new_block':
-            kw = dict(op[1])
-            if isinstance(kw.get('version'), dict):
-                kw['version'] = ds.Version(kw['version']['__version__'])
-            c.new_block(**kw)
-        elif len(c) == 0:
+    kind = op[0]
+    if kind == 'new_block':
+        kw = dict(op[1])
+        if isinstance(kw.get('version'), dict):
+            kw['version'] = ds.Version(kw['version']['__version__'])
+        if 'changes' in kw:
+            kw['changes'] = list(kw['changes'])        # the library keeps (and later edits) the list it is given
+        if 'other_pairs' in kw:
+            kw['other_pairs'] = dict(kw['other_pairs'])
+        c.new_block(**kw)
+        return (kind, 0, None, None)
+    if len(c) == 0:
+        return None
+    if kind == 'add_change':
+        c.add_change(op[1])
+        return (kind, 0, 'changes', None)
+    if kind == 'set':
+        setattr(c, op[1], op[2])
+        return (kind, 0, op[1], None)
+    if kind == 'bset':
+        idx = op[1] % len(c)
+        how = op[4] if len(op) > 4 else 'index'
+        setattr(_handle(c, idx, how), op[2], copy.deepcopy(op[3]))
+        return (kind, idx, op[2], how)
+    if kind == 'badd':
+        idx = op[1] % len(c)
+        how = op[3] if len(op) > 3 else 'index'
+        _handle(c, idx, how).add_change(op[2])
+        return (kind, idx, 'changes', how)
+    if kind == 'seteach':
+        for b in c:
+            setattr(b, op[1], copy.deepcopy(op[2]))
+        return (kind, None, op[1], 'iter')
+    raise ValueError('unknown op %r' % (op,))
+
+
+def apply_ops(ctx, c, ops, aea, case):
+    """Runs the history on the live changelog and on a plain-data model (list of snap() dicts, one per block);
+    after every call all blocks are read back and compared with the model.  Returns (stats, model)."""
+    from debian import changelog as cl
+    model = snap_all(c)
+    st = collections.Counter()
+
+    def stop(key, msg):
+        ctx.violation(key, msg, case)
+        raise _Stop()
+
+    for pos, op in enumerate(ops):
+        if op[0] == 'fmt':
+            block = len(op) > 2 and op[1] == 'block' and len(c) > 0
+            try:
+                out = str(c[op[2] % len(c)]) if block else str(c)
+                again = str(c[op[2] % len(c)]) if block else str(c)
+            except cl.ChangelogCreateError:
+                out = None
+                ctx.count('fmt-mid:unformattable')
+            except Exception as e:
+                stop('format-raises-other-than-create-error/%s' % type(e).__name__, 'op %d: %r' % (pos, e))
+            ctx.count('op:fmt-block' if block else 'op:fmt')
+            ctx.mon('M.model')
+            d = _diff(snap_all(c), model)
+            if d is not None:
+                stop('format-changed-the-blocks/%s' % d[1], 'op %d (%r): block %r attribute %s differs after formatting'
+                     % (pos, op, d[0], d[1]))
+            if out is not None:
+                if again != out:         # layout-only impurity: the statement is silent -> evidence, not a verdict
+                    _note(ctx, 'format-not-repeatable', 'two consecutive formats gave %r then %r' % (out, again))
+                st['fmt'] += 1
+                if not block and st['midcheck'] < 2 and pos < len(ops) - 1:
+                    st['midcheck'] += 1          # the text formatted in mid-history is itself a normal form
+                    normal_form(ctx, c, aea, case, 'M.history-mid', expect=model)
+            continue
+        r = _do_op(c, op)
+        if r is None:
             ctx.count('op:skipped-no-block')
             continue
-        elif kind == 'add_change':
-            c.add_change(op[1])
-        elif kind == 'set':
-            setattr(c, op[1], op[2])
-        elif kind == 'bset':
-            idx = op[1] % len(c)
-            setattr(c[idx], op[2], op[3])
+        kind, idx, attr, how = r
+        live = snap_all(c)
+        ctx.mon('M.model')
+        if kind == 'new_block':
+            if len(live) != len(model) + 1:
+                stop('new_block-block-count', 'op %d: %d blocks before, %d after' % (pos, len(model), len(live)))
+            d = _diff(live[1:], model)
+            if d is not None:
+                stop('edit-changed-another-block/new_block', 'op %d: existing block %d attribute %s changed from %r to %r'
+                     % (pos, d[0], d[1], model[d[0]][d[1]], live[1:][d[0]][d[1]]))
+            for a in ATTRS:                  # only what was passed is demanded; defaults are taken as observed
+                if op[1].get(a) is not None and live[0][a] != _canon(a, op[1][a]):
+                    stop('new_block-argument-not-read-back/%s' % a, 'op %d: passed %r, block 0 reads %r'
+                         % (pos, op[1][a], live[0][a]))
+            model = [copy.deepcopy(live[0])] + model
         else:
-            raise ValueError('unknown op %r' % (op,))
+            expected = copy.deepcopy(model)
+            targets = list(range(len(model))) if idx is None else [idx]
+            if attr == 'changes':
+                change = op[1] if kind == 'add_change' else op[2]
+                lc, bc = live[idx]['changes'] if idx < len(live) else [], model[idx]['changes']
+                if not (len(lc) == len(bc) + 1
+                        and any(lc[p] == change and lc[:p] + lc[p + 1:] == bc for p in range(len(lc)))):
+                    stop('add_change-is-not-one-insertion/%s' % kind, 'op %d (%r, handle %s): changes of block %d were %r, are %r'
+                         % (pos, op, how, idx, bc, lc))
+                expected[idx]['changes'] = list(lc)     # WHERE the entry goes is not demanded
+            else:
+                val = op[2] if kind in ('set', 'seteach') else op[3]
+                for t in targets:
+                    expected[t][attr] = _canon(attr, val)
+            d = _diff(live, expected)
+            if d is not None:
+                bn, an = d
+                if bn is None:
+                    key = 'edit-changed-block-count/%s' % kind
+                elif bn in targets and an == attr:
+                    key = 'assignment-not-read-back/%s/%s' % (kind, attr)
+                elif bn not in targets:
+                    key = 'edit-changed-another-block/%s' % kind
+                else:
+                    key = 'edit-changed-another-attribute/%s' % kind
+                stop(key, 'op %d (%r, handle %s): block %r attribute %s expected %r, reads %r'
+                     % (pos, op, how, bn, an, None if bn is None else expected[bn][an],
+                        None if bn is None else live[bn][an]))
+            model = expected
         ctx.count('op:' + kind)
-        done += 1
-    return done
+        st['done'] += 1
+        if st['fmt']:
+            st['edit-after-fmt'] += 1
+            ctx.count('op:edit-after-mid-format')
+        if kind in ('bset', 'badd') and idx >= 1:
+            st['older'] += 1
+            ctx.count('older:' + kind)
+            ctx.count('older-attr:' + attr)
+            ctx.count('handle:' + how)
+            if st['fmt']:
+                ctx.count('older:edit-after-mid-format')
+        elif kind == 'seteach' and len(model) >= 2:
+            st['older'] += 1
+            ctx.count('older:seteach')
+    return st, model
+
+
+def _start_changelog(case, aea):
+    from debian import changelog as cl
+    if case.get('start') is None:
+        return cl.Changelog(), []
+    return _parse(case['start'], aea)
+
+
+def _note(ctx, slug, msg):
+    """Non-deciding observation (counter + up to 5 samples in the evidence): behaviour a maintainer would want to
+    know about but on which the statement is silent, so it never becomes a verdict."""
+    ctx.count('note:' + slug)
+    notes = ctx.extra.setdefault('notes_non_deciding', [])
+    if len(notes) < 5:
+        notes.append('%s: %s' % (slug, msg[:600]))
+
+
+def twin_check(ctx, c, case, aea):
+    """NON-DECIDING.  The same history WITHOUT its mid-history formats is run on a second object; a different final
+    text means formatting is not a pure read of the layout state (separators, trailing lines).  The statement only
+    demands that whatever is formatted is a normal form of the current blocks, so this is reported as a note."""
+    from debian import changelog as cl
+    twin, _w = _start_changelog(case, aea)
+    for op in case['ops']:
+        if op[0] != 'fmt':
+            _do_op(twin, op)
+
+    def fmt(x):
+        try:
+            return str(x)
+        except cl.ChangelogCreateError as e:
+            return ('unformattable', str(e))
+    ctx.mon('N.twin')
+    a, b = fmt(c), fmt(twin)
+    if a != b:
+        _note(ctx, 'mid-history-format-changes-final-text', 'with the mid-history formats the history ends in %r, '
+              'without them in %r' % (a, b))
 
 
 def run_case(ctx, case):
@@ -554,32 +1019,52 @@ def run_case(ctx, case):
     if kind == 'text':
         text = case['text']
         warned = False
+        irr = case.get('irr')
         for aea in case.get('aea', [False, True]):
-            warned = check_text(ctx, text, bool(aea)) or warned
+            info = {}
+            warned = check_text(ctx, text, bool(aea), info) or warned
+            if irr and info:
+                # reach of the class "irregular construct in a non-last block" (evidence, measured on the live parse)
+                ctx.count('multi:texts')
+                ctx.count('multi:family:%s' % irr.get('family'))
+                if info['evaluated'] and info['nblocks'] >= 2:
+                    ctx.count('multi:normalform-on-2+-blocks')
+                    if info['sites']:
+                        ctx.count('multi:warned-and-2+-blocks')
+                    if 'bad-trailer' in info['sites'] and info['nblocks'] == irr.get('n'):
+                        ctx.count('multi:bad-trailer-accepted-in-non-last-block')
+                    if info['nblocks'] >= 3 and 0 < irr.get('k', 0):
+                        ctx.count('multi:irregular-in-middle-block')
         off_path = any(g.line_class(l) not in ('heading-ok', 'heading-rich', 'blank-ish', 'change-ok', 'trailer-ok')
                        for l in text.split('\n'))
         if warned or off_path:
             ctx.nontrivial(case={'text': text})
         ctx.count('src:' + case.get('src', 'replay').split(':')[0])
     elif kind == 'hist':
-        from debian import changelog as cl
         aea = bool(case.get('aea', False))
-        eof = False
-        if case.get('start') is None:
-            c = cl.Changelog()
-            ctx.count('hist:from-empty')
-        else:
-            try:
-                c, _w = _parse(case['start'], aea)
-            except Exception as e:
-                ctx.violation('lenient-constructor-raises/%s' % type(e).__name__, '%r (allow_empty_author=%r) on %r'
-                              % (e, aea, case['start']), {'kind': 'text', 'text': case['start'], 'aea': [aea]})
-                return
-            ctx.count('hist:from-parsed')
-            eof = any(warn_site(x) == 'eof-inside-block' for x in _w)
-        done = apply_ops(ctx, c, case['ops'])
-        if normal_form(ctx, c, aea, case, 'M.history', eof_hint=eof) and done >= 2:
-            ctx.nontrivial(case={'start': case.get('start'), 'ops': case['ops']})
+        try:
+            c, _w = _start_changelog(case, aea)
+        except Exception as e:
+            ctx.violation('lenient-constructor-raises/%s' % type(e).__name__, '%r (allow_empty_author=%r) on %r'
+                          % (e, aea, case['start']), {'kind': 'text', 'text': case['start'], 'aea': [aea]})
+            return
+        ctx.count('hist:from-empty' if case.get('start') is None else 'hist:from-parsed')
+        eof = any(warn_site(x) == 'eof-inside-block' for x in _w)
+        try:
+            st, model = apply_ops(ctx, c, case['ops'], aea, case)
+        except _Stop:
+            return
+        evaluated = normal_form(ctx, c, aea, case, 'M.history', eof_hint=eof, expect=model)
+        if st['fmt']:
+            twin_check(ctx, c, case, aea)
+        if evaluated:
+            if st['edit-after-fmt']:
+                ctx.count('hist:final-format-after-mid-format-and-edit')
+            if st['older'] and len(c) >= 2:
+                ctx.count('hist:final-format-after-older-block-edit')
+            if st['done'] >= 2:
+                ctx.nontrivial(case={'start': case.get('start'), 'ops': case['ops']})
+        ctx.count('hsrc:' + case.get('src', 'random'))
     else:
         raise ValueError('unknown case kind %r' % kind)
 
@@ -591,7 +1076,8 @@ LEVEL_TEXT = ('Runtime monitoring: mutated changelog texts (generated well-forme
               'boundary monitor checks that the lenient constructor returned, that strict raised ChangelogParseError '
               'exactly when lenient warned, and that every formattable result re-parses to the same blocks and formats '
               'to the identical text; the same normal-form check runs after short histories of new_block / add_change / '
-              'attribute assignments.  A sys.monitoring LINE probe on parse_changelog records which (parser state, line '
+              'attribute assignments, including edits of older blocks reached through indexing / iteration and formats in '
+              'mid-history, each step compared with a plain-data model of the blocks.  A sys.monitoring LINE probe on parse_changelog records which (parser state, line '
               'class) pairs were visited.  Held-on-observed: reach is the sampled texts and histories.')
 LEVEL_NOTE = ('Trusted: CPython, the warnings machinery, the harness line classifier (evidence only).  Not covered: bytes / '
               'file-object inputs, max_blocks, malformed argument values to the editing calls, _format(allow_missing_author=True).')
